@@ -24,6 +24,7 @@ type gen struct {
 	st     M   // current projected state
 	outbox []M // abstract wire messages observed in MessageSent events
 	inbox  []M // receive messages that were accepted (for replays)
+	retry  []M // receive messages that were rejected (users retry them later)
 }
 
 func (g *gen) pick(xs []string) string { return xs[g.r.Intn(len(xs))] }
@@ -45,7 +46,7 @@ func (g *gen) addr32() M {
 	case x < 17:
 		return zero32
 	case x < 18:
-		return b32m(B32{g.pick3(0, 31, 33), "-", g.pick([]string{"zero", "junk"})})
+		return b32m(B32{[]int{0, 20, 31, 33, 64, 96}[g.r.Intn(6)], "-", g.pick([]string{"zero", "junk"})})
 	default:
 		return pad("MODULE")
 	}
@@ -181,6 +182,9 @@ func (g *gen) inboundWire(from string) M {
 		xm := x.(map[string]any)
 		if gets(xm, "d") == src && g.p(0.85) {
 			sender = getm(xm, "addr")
+			if g.p(0.08) { // same low 20 bytes, different high 12 bytes
+				sender = M{"n": 32, "hi": "z", "lo": gets(sender, "lo")}
+			}
 		}
 	}
 	if g.p(0.6) { // burn message to the module
@@ -306,6 +310,9 @@ func (g *gen) next() (M, []bool) {
 		if len(g.inbox) > 0 && g.p(0.15) { // literal replay of an accepted message
 			m = g.inbox[g.r.Intn(len(g.inbox))]
 			m = M{"type": "ReceiveMessage", "from": user, "wire": m["wire"], "att": g.att()}
+		} else if len(g.retry) > 0 && g.p(0.2) { // retry of a rejected message, freshly attested
+			m = g.retry[g.r.Intn(len(g.retry))]
+			m = M{"type": "ReceiveMessage", "from": gets(m, "from"), "wire": m["wire"], "att": g.att()}
 		} else {
 			m = M{"type": "ReceiveMessage", "from": user, "wire": g.inboundWire(user), "att": g.att()}
 		}
@@ -415,6 +422,9 @@ func (g *gen) absorb(ev M) {
 	obs := getm(ev, "obs")
 	g.st = getm(obs, "post")
 	if gets(obs, "res") != "ok" {
+		if m := getm(ev, "msg"); gets(m, "type") == "ReceiveMessage" && len(g.retry) < 20 {
+			g.retry = append(g.retry, m)
+		}
 		return
 	}
 	for _, e := range arr(obs, "evs") {
